@@ -209,7 +209,13 @@ pub fn mutate_structure(rng: &mut Rng, data: &mut Value, attacker_id: &str) -> O
             let n = data["trace"][i]["fold"]["lore"].as_array()?.len();
             let k = rng.below(n);
             let v = boundary(rng, tlen);
-            match rng.below(7) {
+            // an earlier operation of the same recipe may have shortened this descriptor list
+            let n_desc = data["trace"][i]["fold"]["lore"][k]["desc"].as_array().map(|d| d.len()).unwrap_or(0);
+            let op = rng.below(7);
+            if (matches!(op, 1 | 2 | 5) && n_desc < 1) || (matches!(op, 3 | 4) && n_desc < 2) {
+                return None;
+            }
+            match op {
                 0 => data["trace"][i]["fold"]["lore"][k]["pos"] = json!(v),
                 1 => data["trace"][i]["fold"]["lore"][k]["desc"][0]["pos"] = json!(v),
                 2 => data["trace"][i]["fold"]["lore"][k]["desc"][0]["len"] = json!(v),
